@@ -22,14 +22,19 @@ type Frame struct {
 	Self    common.Address
 	Steps   int
 	PeakMem int
-	EtxAt   int // len(ETXCache) when the frame was entered
-	EtxEnd  int // len(ETXCache) at the last event seen inside the frame
-	Failed  bool
-	Err     string
-	Closed  bool
-	Flag    *uint256.Int // what the opener found on its stack afterwards (nil for TOP / unknown)
-	Ops     []int        // indices into Tracer.Ops of operations recorded in this frame
-	LastOp  vm.OpCode
+	// the largest single-step memory growth seen in the frame and the opcode it happened for
+	// (CaptureState fires after the interpreter resized memory for the opcode about to execute)
+	BigGrow   int
+	BigGrowOp vm.OpCode
+	lastMem   int
+	EtxAt     int // len(ETXCache) when the frame was entered
+	EtxEnd    int // len(ETXCache) at the last event seen inside the frame
+	Failed    bool
+	Err       string
+	Closed    bool
+	Flag      *uint256.Int // what the opener found on its stack afterwards (nil for TOP / unknown)
+	Ops       []int        // indices into Tracer.Ops of operations recorded in this frame
+	LastOp    vm.OpCode
 	// for CREATE frames: what the init code returned (taken from the RETURN operands)
 	RetLen   uint64
 	RetFirst int // first byte of the returned code, -1 if none
@@ -242,6 +247,10 @@ func (t *Tracer) event(env *vm.EVM, pc uint64, op vm.OpCode, gas uint64, scope *
 	if l := scope.Memory.Len(); l > f.PeakMem {
 		f.PeakMem = l
 	}
+	if l := scope.Memory.Len(); l-f.lastMem > f.BigGrow {
+		f.BigGrow, f.BigGrowOp = l-f.lastMem, op
+	}
+	f.lastMem = scope.Memory.Len()
 
 	// --- after-observation of a pending operation at this depth ------------------------------
 	if p, ok := t.pending[depth]; ok {
